@@ -514,6 +514,65 @@ func init() {
 				os.RemoveAll(u.dir)
 			}
 		}
+		// scripted history: the remote loses its blobs (eviction / lifecycle rule) while it keeps the target results, and
+		// one target is not reproducible (its output depends on something undeclared). Machine B re-executes what cannot be
+		// loaded; afterwards the remote must again be a consistent mirror (the re-executed target's NEW result replaces
+		// the old one) and a third machine gets B's bytes without executing anything.
+		{
+			u, err := newUniverse(base)
+			if err == nil {
+				w := wsState{}
+				src := w.source()
+				src.Targets = append(src.Targets, hist.Target{Pkg: "b", Name: "stamp", Inputs: []string{"app.in"}, Outputs: []string{"stamp.txt"},
+					Command: traceStart + "\nprintf 'stamp-%s' \"${VNONCE:-0}\" > stamp.txt"})
+				run := func(box *hist.Box, nonce string) hist.RunResult {
+					src.Materialize(box.WS(), nil)
+					return box.Run(grog, hist.RunOpts{Args: []string{"build", "//..."}, Env: map[string]string{"VERIF_REMOTE_DIR": u.remote, "VNONCE": nonce}})
+				}
+				hist0 := []string{"build on A", "the remote loses every blob (results stay)", "build on B (re-executes; //b:stamp is not reproducible)", "wipe A's local cache", "build on A"}
+				ra := run(u.a, "1")
+				os.RemoveAll(filepath.Join(u.remote, "cas"))
+				rb := run(u.b, "2")
+				replay := map[string]any{"history": hist0, "exit_A": ra.Exit, "exit_B": rb.Exit, "executed_on_B": rb.Started(), "output_tail_B": tail(rb.Output, 800)}
+				vio := func(sig, format string, a ...any) {
+					c.R.Violate(vc.Violation{Sig: sig, Detail: fmt.Sprintf("history %v: ", hist0) + fmt.Sprintf(format, a...), Replay: replay})
+				}
+				if ra.Exit != 0 {
+					c.R.BrokenCheck("eviction scenario: first build failed: %s", tail(ra.Output, 300))
+				} else if rb.Exit != 0 {
+					vio("C08:build-fails-after-remote-lost-its-blobs", "machine B exited %d instead of re-executing what could not be loaded: %s", rb.Exit, tail(rb.Output, 300))
+				} else {
+					if b, _ := os.ReadFile(filepath.Join(u.b.WS(), "b/stamp.txt")); string(b) != "stamp-2" {
+						vio("C08:wrong-output-after-remote-lost-its-blobs", "machine B has b/stamp.txt = %q after re-executing //b:stamp with VNONCE=2", b)
+					}
+					problems, _, _, _ := auditCache(abin, u.remote, "")
+					for _, p := range problems {
+						vio("C08:remote-audit-after-eviction-and-rebuild:"+p.Kind, "%s", p.Detail)
+					}
+					os.RemoveAll(u.a.CacheDir())
+					for _, t := range src.Targets {
+						for _, op := range hist.OutputPaths(t) {
+							os.RemoveAll(filepath.Join(u.a.WS(), op))
+						}
+					}
+					rc := run(u.a, "3")
+					replay["exit_A2"], replay["executed_on_A2"] = rc.Exit, rc.Started()
+					if rc.Exit != 0 {
+						vio("C08:build-fails-after-eviction-and-rebuild", "machine A (local cache wiped) exited %d: %s", rc.Exit, tail(rc.Output, 300))
+					} else {
+						if len(rc.Started()) > 0 {
+							vio("C08:executed-although-available-in-remote:after-eviction-and-rebuild", "machine A executed %v although machine B had just rebuilt and uploaded everything", rc.Started())
+						}
+						if b, _ := os.ReadFile(filepath.Join(u.a.WS(), "b/stamp.txt")); string(b) != "stamp-2" && len(rc.Started()) == 0 {
+							vio("C08:wrong-content-served-from-remote", "machine A restored b/stamp.txt = %q, machine B had uploaded stamp-2", b)
+						}
+					}
+				}
+				c.R.AddCounts(3, 1, 3, 3)
+				c.R.Nontrivial("eviction")
+				os.RemoveAll(u.dir)
+			}
+		}
 		// concurrent uploads of the same digest (two targets with identical output content), with a failing Put
 		casRace(c, "C08")
 	}
